@@ -171,7 +171,7 @@ def keepfile(x, p):
     except Exception as e:
         x.check('keep file is read', False, info=repr(e))
         return
-    got = sorted(bytes(n) if not isinstance(n, bytes) else n for n in names)
+    got = sorted(bytes(x.conc(n)) for n in names)
     x.out('names', got)
     x.check('exactly the listed names, stripped, comments and blank lines '
             'ignored', got == [b'a#b', b'foo', b'qux'])
